@@ -21,13 +21,15 @@ def make_input(rng, which):
     return '(set-logic ALL)\n' + ''.join(f'(assert {x})\n' for x in items) + '(check-sat)\n'
 
 
-def faulty_content(text):
+def faulty_content(text, mode=None):
+    """the fault the command shows on this content (None = none); with a golden run that itself dies from SIGKILL (mode
+    kill9) a candidate on which the command kills itself ends the same way as the golden run: that is a match, not a fault"""
     t = set(e2e.sh_tokens(text))
     if 'keep' not in t:
         return None
     for a, b in PAIRS:
         if a in t and b not in t:
-            return a
+            return None if (mode == 'kill9' and a == 'k1') else a
     return None
 
 
@@ -95,12 +97,12 @@ def run(ctx):
         # no faulty candidate may ever be adopted / written
         for w in r.ev('write'):
             if w.get('toks') and j['mode'] != 'hang':
-                f = faulty_content(' '.join(w['toks']))
+                f = faulty_content(' '.join(w['toks']), j['mode'])
                 if f:
                     problems.append(f'a candidate on which the command {f}-faults was accepted and written: {" ".join(w["toks"])[:200]}')
                     break
         if r.outtext is not None:
-            f = faulty_content(r.outtext)
+            f = faulty_content(r.outtext, j['mode'])
             if j['mode'] != 'hang' and f:
                 problems.append(f'the output file is a candidate on which the command {f}-faults (hang/spin/kill/alloc)')
             t = set(e2e.sh_tokens(r.outtext))
